@@ -2,7 +2,7 @@
 
 let parse_exchange (t : string) : exch3 =
   match String.split_on_char ':' t with
-  | ["Y"; id; m; rc; _v10; oc; st; fr; bl; sc; h] | ["Y"; id; m; rc; _v10; oc; st; fr; bl; sc; h; _] ->
+  | "Y" :: id :: m :: rc :: _v10 :: oc :: st :: fr :: bl :: sc :: h :: _options ->
       let idn = int_of_string id in
       let n = int_of_string bl in
       let body = List.init n (fun j -> Char.chr (97 + (idn * 7 + j) mod 26)) in
